@@ -63,6 +63,26 @@ impl Monitor for Mon {
         });
         if dels.iter().any(|d| matches!(d.verdict, Verdict::Unspecified(_))) {
             stats.bump("probe.unspecified-frame-during-join");
+            // The statement does not say whether a JoinAccept heard outside RX1/RX2 (Class C listening between the
+            // windows) may be acted upon. But if the device did become joined upon it - its keys are the derivation
+            // from that very accept - the session must be the one the accept defines: both counters restart.
+            if let Some((dn, da, addr)) = w.dut.session_keys() {
+                for d in dels.iter().filter(|d| matches!(d.verdict, Verdict::Unspecified("join-accept outside RX1/RX2"))) {
+                    if let Some(ja) = rc::open_join_accept(&id.appkey, &d.bytes) {
+                        let (nwk, app) = rc::derive_session_keys(&id.appkey, &ja.join_nonce, &ja.net_id, &jr.dev_nonce);
+                        if dn == nwk && da == app && addr == ja.devaddr {
+                            stats.bump("probe.joined-upon-accept-outside-windows");
+                            if rec.fcnt_up_after != Some(0) || rec.fcnt_down_after != Some(None) {
+                                return Some(Violation::new(
+                                    "C11.counters-not-reset",
+                                    "accept-outside-windows",
+                                    format!("the device became joined upon a JoinAccept heard outside RX1/RX2 ({:?}) and then holds FCntUp={:?} FCntDown={:?}", d.win, rec.fcnt_up_after, rec.fcnt_down_after),
+                                ));
+                            }
+                        }
+                    }
+                }
+            }
             return None;
         }
         let keys = w.dut.session_keys();
@@ -274,7 +294,14 @@ fn gen_join_txn(r: &mut Rng, cfg: &WorldCfg) -> Txn {
         }
     }
     if cfg.frontend == Frontend::AsyncC && r.chance(1, 4) {
-        let f = if r.chance(1, 2) { frame_rejected(r) } else { frame_ok(r) };
+        // foreign traffic, a data frame, or (one time in four) a JoinAccept that arrives outside the two windows
+        let f = if r.chance(1, 4) {
+            FrameSpec::JoinAccept(gen_ja(r, cfg.region, false))
+        } else if r.chance(1, 2) {
+            frame_rejected(r)
+        } else {
+            frame_ok(r)
+        };
         if r.chance(1, 2) {
             t.gap1.push(f);
         } else {
